@@ -40,20 +40,27 @@ ToOf(k) == [label |-> LabelModes[k.lm].label, empties |-> LabelModes[k.lm].empti
             fnlist |-> k.fnlist, tagmaplist |-> k.tagmaplist]
 
 (* ------------------------------------------------------------ t2l / t1l *)
-TA == <<"animal", "dog">>   TB == <<"sex", "male">>   TC == <<"animal", "cat">>
-TagLists == <<<<>>, <<TA>>, <<TA, TB>>, <<TB, TC, TA>>, <<TB, TC>>>>
+TA == <<"animal", "dog", "k">>   TB == <<"sex", "male", "k">>   TC == <<"animal", "cat", "k">>
+\* tags whose term is NOT the simple key-term: hand-built Term labelled "animal"; the vocabulary term labelled "Common Name"
+TAh == <<"animal", "wolf", "h">>   TVv == <<"Common Name", "fox", "v">>   TVk == <<"Common Name", "hare", "k">>
+TagLists == <<<<>>, <<TA>>, <<TA, TB>>, <<TB, TC, TA>>, <<TB, TC>>,
+              <<TAh>>, <<TAh, TC>>, <<TC, TAh>>, <<TVv>>, <<TVv, TVk>>, <<TVk, TVv>>, <<TB, TVv, TAh>>>>
+OldLists == 5
 IdxVals  == IF Quick THEN {-3, -1, 0, 2, 5} ELSE -7..7
 T2lCases == {[kind |-> "t2l", tl |-> tl, seqfn |-> sf, sel |-> s, idx |-> ix, sep |-> sp, empty |-> em, fn |-> fn, map |-> mp, vo |-> vo] :
-             tl \in 1..Len(TagLists), sf \in BOOLEAN, s \in Opt({"animal", "sex", "zzz"}), ix \in Opt(IdxVals),
+             tl \in 1..Len(TagLists), sf \in BOOLEAN, s \in Opt({"animal", "sex", "zzz", "Common Name"}), ix \in Opt(IdxVals),
              sp \in Opt({"|"}), em \in Opt({"NA"}), fn \in BOOLEAN, mp \in Tri, vo \in {"a", "t", "f"}}
-T2lKeep(k) == /\ k.seqfn => (k.sep = <<>> /\ ~k.fn /\ k.map = "a" /\ k.vo = "a")
+T2lKeep(k) == /\ (k.sel = <<"Common Name">>) => k.tl > OldLists
+              /\ (Quick /\ k.tl > OldLists) => (k.sel # <<>> /\ k.sel # <<"sex">> /\ k.idx = <<>> /\ k.sep = <<>> /\ k.empty = <<>> /\ ~k.fn /\ ~k.seqfn)
+              /\ (k.tl > OldLists) => (k.sep = <<>> /\ k.empty = <<>> /\ (k.idx = <<>> \/ k.idx \in {<<-1>>, <<0>>, <<2>>}))
+              /\ k.seqfn => (k.sep = <<>> /\ ~k.fn /\ k.map = "a" /\ k.vo = "a")
               /\ (Quick /\ k.sep # <<>>) => (k.idx = <<>> /\ k.sel = <<>>)        \* the join separator matters for joins only
               /\ (Quick /\ k.empty # <<>>) => (k.idx = <<>> /\ ~k.fn)
 LoOf(k) == [seqfn |-> k.seqfn, sel |-> k.sel, idx |-> k.idx, sep |-> k.sep, empty |-> k.empty, kvsep |-> <<>>,
             fn |-> k.fn, map |-> k.map, vo |-> k.vo]
 T1lCases == {[kind |-> "t1l", tag |-> t, lo |-> [seqfn |-> FALSE, sel |-> <<>>, idx |-> <<>>, sep |-> <<>>, empty |-> <<>>,
                                                   kvsep |-> ks, fn |-> fn, map |-> mp, vo |-> vo]] :
-             t \in {TA, TB, TC}, ks \in Opt({"=", ""}), fn \in BOOLEAN, mp \in Tri, vo \in {"a", "t", "f"}}
+             t \in {TA, TB, TC, TAh, TVv}, ks \in Opt({"=", ""}), fn \in BOOLEAN, mp \in Tri, vo \in {"a", "t", "f"}}
 
 (* ------------------------------------------------------------------ imp *)
 TimeTicks == {0, 8, 24, 40, 64}
@@ -105,15 +112,17 @@ RtBoxPool == <<<<8, 24, 0, 2>>, <<0, 64, 2, 16>>, <<24, 40, 1, 3>>>>        \* h
 RtSecPool == <<<<8, 24>>, <<24, 24>>, <<0, 64>>>>
 RtSmpPool == <<<<1, 3>>, <<3, 3>>, <<0, 8>>>>
 RtLists   == [1..1 -> 1..3] \cup [1..2 -> 1..3] \cup (IF Quick THEN {} ELSE [1..3 -> 1..3])
-RtCases == {[kind |-> "rt", via |-> v, sr |-> sr, mode |-> m, ix |-> l, emp |-> e, ikey |-> ik] :
+\* sel = <<"TM">>: import with term_mapping = {every label: a hand-built Term labelled "TM"}, export with select_by_key = "TM"
+RtCases == {[kind |-> "rt", via |-> v, sr |-> sr, mode |-> m, ix |-> l, emp |-> e, ikey |-> ik, sel |-> sl] :
             v \in {"segment", "bbox", "sequence", "annot_seq", "annot_bbox"}, sr \in {4, 16}, m \in {"sec", "both", "smp"},
-            l \in RtLists, e \in BOOLEAN, ik \in Opt({"K"})}
+            l \in RtLists, e \in BOOLEAN, ik \in Opt({"K"}), sl \in Opt({"TM"})}
 RtKeep(k) == /\ (k.via \in {"segment", "bbox"} => Len(k.ix) = 1)
              /\ (Quick /\ Len(k.ix) > 1) => (k.emp <=> k.ikey # <<>>)
              /\ (IsBoxVia(k) => k.mode = "sec" /\ k.sr = 16)
+             /\ (k.sel # <<>>) => (k.ikey = <<>> /\ (Quick => k.sr = 16))
 RtBase(k) == [via |-> k.via, sr |-> k.sr, tden |-> TDEN, fden |-> FDEN, cast |-> FALSE, ign |-> FALSE, rtg |-> TRUE, vo |-> TRUE]
 RtOf(k) ==
-    [kind |-> "rt", te |-> <<1, 1>>, exact |-> TRUE, ikey |-> k.ikey] @@ RtBase(k) @@
+    [kind |-> "rt", te |-> <<1, 1>>, exact |-> TRUE, ikey |-> k.ikey, sel |-> k.sel] @@ RtBase(k) @@
     [els |-> [j \in 1..Len(k.ix) |->
         LET lab == IF k.emp /\ j = 1 THEN "__empty__" ELSE Lab(j) IN
         IF IsBoxVia(k) THEN LET b == RtBoxPool[k.ix[j]] IN El("sec", <<b[1], b[2]>>, <<b[3], b[4]>>, lab)
@@ -121,6 +130,16 @@ RtOf(k) ==
         ELSE LET s == RtSecPool[k.ix[j]] IN
              [sec |-> s, smp |-> IF k.mode = "both" THEN <<(s[1] * k.sr) \div TDEN, (s[2] * k.sr) \div TDEN>> ELSE <<>>,
               frq |-> <<>>, label |-> lab]]]
+
+(* ------------------------------------------------------------------- xs *)
+\* times k/den that are NOT binary fractions, ascending; the binder passes the double nearest to k/den
+XsTimes == <<<<0, 1>>, <<33, 1000>>, <<7, 100>>, <<29, 100>>, <<3, 10>>, <<1, 3>>, <<57, 100>>, <<58, 100>>, <<2, 3>>, <<999, 1000>>,
+             <<99999999, 100000000>>, <<999999999, 1000000000>>, <<1001, 1000>>, <<115, 100>>, <<1999999999, 1000000000>>>>
+XsRates == {<<8, <<8, 1>>>>, <<100, <<100, 1>>>>, <<1000, <<1000, 1>>>>, <<8000, <<8000, 1>>>>, <<22050, <<22050, 1>>>>, <<44100, <<210, 210>>>>}
+XsCases == {[kind |-> "xs", via |-> v, sr |-> r[1], srf |-> r[2], a |-> a, b |-> b] :
+            v \in {"segment", "sequence"}, r \in XsRates, a \in 1..Len(XsTimes), b \in 1..Len(XsTimes)}
+XsKeep(k) == k.a <= k.b /\ (Quick => (k.b <= k.a + 1 /\ (k.via = "sequence" => k.sr = 100)))
+XsOf(k) == [kind |-> "xs", via |-> k.via, sr |-> k.sr, srf |-> k.srf, t |-> <<XsTimes[k.a], XsTimes[k.b]>>]
 
 (* -------------------------------------------------- the case, written out *)
 Concrete(k) ==
@@ -130,6 +149,7 @@ Concrete(k) ==
       [] k.kind \in {"imp", "impl"} -> ImpOf(k)
       [] k.kind = "exp" -> ExpOf(k)
       [] k.kind = "rt"  -> RtOf(k)
+      [] k.kind = "xs"  -> XsOf(k)
 
 (* ============================ Impl: the cascades ========================= *)
 ImplTags(to) ==
@@ -173,12 +193,13 @@ Init == /\ pc = "start" /\ i = 1 /\ tmp = <<>> /\ acc = <<>> /\ err = ""
            \/ c \in {k \in ExpSingles : ExpKeep(k)}
            \/ c \in {k \in ExpLists : ExpKeep(k)}
            \/ c \in {k \in RtCases : RtKeep(k)}
+           \/ c \in {k \in XsCases : XsKeep(k)}
 
 \* label cascades and round trips: one step
 CascadeTags  == pc = "start" /\ c.kind = "l2t" /\ acc' = ImplTags(K.to) /\ pc' = "done" /\ UNCHANGED <<c, i, tmp, err>>
 CascadeLabel == pc = "start" /\ c.kind \in {"t2l", "t1l"} /\ pc' = "done" /\ UNCHANGED <<c, i, tmp, err>>
                 /\ acc' = IF c.kind = "t2l" THEN ImplLabel(K.tags, K.lo) ELSE OneLabel(K.tag, K.lo, K.lo.vo = "t")
-RoundTripStep == pc = "start" /\ c.kind = "rt" /\ pc' = "done" /\ UNCHANGED <<c, i, tmp, acc, err>>
+RoundTripStep == pc = "start" /\ c.kind \in {"rt", "xs"} /\ pc' = "done" /\ UNCHANGED <<c, i, tmp, acc, err>>
 
 \* import: per element, (1) file time from seconds or from samples over the file rate, (2) adjust by te once
 IsImp == c.kind \in {"imp", "impl"}
@@ -268,10 +289,16 @@ LawExportShape == (Exp /\ ~ExpRaises(K)) => \A j \in DOMAIN ReqExport(K).items :
                      /\ it.on <= it.off /\ it.hi <= Nyq(K)
                      /\ (IsBoxVia(K) => it.on < it.off /\ it.lo < it.hi)
                      /\ (~IsBoxVia(K) => it.smp[1] * K.tden <= it.on * K.sr /\ it.on * K.sr < (it.smp[1] + 1) * K.tden)
+\* the limb product used for floor(t x sr) on observed doubles agrees with integer arithmetic on dyadic values
+Half(k) == <<1, k \div 2, (k % 2) * 32768, 0, 0, 0, 1>>                     \* k/2 as a limb number, k > 0
+LawLimbFloor == c.kind = "xs" =>
+    \A k \in 1..7 : LET m == ProdLimbs(Half(k), K.srf) IN
+        /\ m[2] = (k * K.sr) \div 2 /\ m[3] = ((k * K.sr) % 2) * 32768 /\ m[4] = 0 /\ ~NearBelow(m)
+        /\ FloorOk((k * K.sr) \div 2, Half(k), K.srf) /\ ~FloorOk((k * K.sr) \div 2 + 1, Half(k), K.srf)
 \* round trip on the model: export(import(x)) = x for te = 1 and value-only labels
 TicksOf(r, den) == (r[1] * den) \div r[2]
 OnTicks(r, den) == (r[1] * den) % r[2] = 0
-RtTo(el, kk) == [label |-> el.label, empties |-> <<>>, fn |-> "a", termmap |-> "a", tagmap |-> "a", keymap |-> "a",
+RtTo(el, kk) == [label |-> el.label, empties |-> <<>>, fn |-> "a", termmap |-> IF kk.sel # <<>> THEN "h" ELSE "a", tagmap |-> "a", keymap |-> "a",
                  key |-> kk.ikey, term |-> <<>>, fb |-> <<>>, fnlist |-> FALSE, tagmaplist |-> FALSE]
 RtGeom(el) ==
     LET g == ReqGeom(el, K) IN
@@ -289,6 +316,6 @@ RtAt(el, j) ==
     /\ (el.sec # <<>> => (it.on = el.sec[1] /\ it.off = el.sec[2]))
     /\ (el.smp # <<>> => it.smp = el.smp)
     /\ (el.frq # <<>> => (it.lo = el.frq[1] /\ it.hi = el.frq[2]))
-    /\ (\A tg \in AllowedTags(RtTo(el, K)) : ReqLabels(tg, DefaultLo("t")) = {el.label})
+    /\ (\A tg \in AllowedTags(RtTo(el, K)) : ReqLabels(tg, [DefaultLo("t") EXCEPT !.sel = K.sel]) = {el.label})
 LawRoundTrip == (c.kind = "rt") => (\A j \in DOMAIN K.els : RtAt(K.els[j], j))
 =============================================================================
